@@ -211,9 +211,11 @@ def plan(ctx):
         sizes["defaulting_schemas_d%d" % d] = len(defaulting_schemas(d, ctx.tier))
         units += [(d, "defaulting", i, 6) for i in range(6)]
         units += [(d, "edited", i, 4) for i in range(4)]
+        units.append((d, "longstr", 0, 1))
     return {
         "units": units,
-        "rule": ("EDITED IN PLACE: all ordered pairs over two values per keyword: a validator is used, then the second "
+        "rule": ("LONG STRINGS: ordered pairs of string keywords on strings of 17 .. 70000 characters.  EDITED IN PLACE (also a "
+                 "pattern / name / dependency added to the nested table in place): all ordered pairs over two values per keyword: a validator is used, then the second "
                  "keyword is added to the root schema object in place, then the first is deleted; after each edit the "
                  "same validator reports what a validator for the current schema reports.  DEFAULTING INSTANCES: sibling groups and ordered pairs with an object keyword x every instance "
                  "containing an object, given as collections.defaultdict (answers for keys it is asked about): same "
@@ -441,6 +443,11 @@ def run_edited(unit, ctx):
             per[k].append(v)
     red = [(k, v) for k, vs in per.items() for v in vs]
     pairs = [(a, b) for a in red for b in red if a[0] != b[0]]
+    # the siblings additionalProperties consults, with a closed object, in both orders
+    for tbl, val in (("patternProperties", {"a": {}}), ("properties", {"a": {}}), ("patternProperties", {"^a": {"type": "integer"}})):
+        for ap in (False, {"type": "integer"}):
+            pairs += [((tbl, val), ("additionalProperties", ap)), (("additionalProperties", ap), (tbl, val))]
+    U = U + [{"b": 1}, {"zz": "s"}, {"a": 1, "b": "s", "zz": None}, {"ab": 1}]
     ev = nt = 0
     viol, outcomes = [], {}
     for i in range(shard, len(pairs), n):
@@ -451,17 +458,32 @@ def run_edited(unit, ctx):
             S = {k1: json.loads(json.dumps(v1))}
             v = _e1.CLS[d](S)
             steps = []
+
+            def snap_now(what):
+                cur = json.loads(json.dumps(S))
+                got = sorted((_e1.ident(e) for e in v.iter_errors(x)), key=repr)
+                steps.append((what, cur, got))
             try:
                 list(v.iter_errors(x))
                 S[k2] = json.loads(json.dumps(v2))                      # keyword added
-                steps.append(("added", json.loads(json.dumps(S))))
-                got1 = sorted((_e1.ident(e) for e in v.iter_errors(x)), key=repr)
+                snap_now("added")
+                # a nested table edited in place: a pattern / name / dependency added to the object the keyword holds
+                for tbl, extra in (("patternProperties", {"^zz": {"type": "null"}, "b": {"type": "null"}}),
+                                   ("properties", {"b": {"type": "null"}, "ab": {"type": "null"}}),
+                                   ("dependencies", {"b": ["zz"]})):
+                    if isinstance(S.get(tbl), dict):
+                        before = json.loads(json.dumps(S[tbl]))
+                        S[tbl].update(json.loads(json.dumps(extra)))
+                        if _e1.accepted(d, json.loads(json.dumps(S))):
+                            snap_now("nested-" + tbl)
+                        else:
+                            S[tbl].clear()
+                            S[tbl].update(before)
                 del S[k1]                                               # keyword deleted
-                steps.append(("deleted", json.loads(json.dumps(S))))
-                got2 = sorted((_e1.ident(e) for e in v.iter_errors(x)), key=repr)
+                snap_now("deleted")
             except Exception:
                 continue
-            for (what, snap), got in zip(steps, (got1, got2)):
+            for what, snap, got in steps:
                 ev += 1
                 want = sorted((_e1.ident(e) for e in _e1.CLS[d](snap).iter_errors(x)), key=repr)
                 if want:
@@ -477,7 +499,42 @@ def run_edited(unit, ctx):
             "counters": {"edited_in_place_cases": ev}}
 
 
+def run_long_strings(unit, ctx):
+    """Pairs of string keywords on strings of 17 .. 70000 characters: each keyword reports as it does alone."""
+    d = unit[0]
+    kws = [("pattern", "^[a-z]+$"), ("pattern", "b$"), ("maxLength", 5), ("maxLength", 4096), ("minLength", 100000),
+           ("enum", ["x"]), ("type", "integer"), ("format", "ipv4")]
+    if d >= 6:
+        kws.append(("const", "x"))
+    strings = []
+    for n in (17, 255, 4096, 4097, 5000, 70000):
+        strings += ["a" * n, "a" * (n - 1) + "B", "B" + "a" * (n - 1), "\U0001F600" * n]
+    ev = nt = 0
+    viol, outcomes = [], {}
+    for (k1, v1) in kws:
+        for (k2, v2) in kws:
+            if k1 == k2:
+                continue
+            S = {k1: v1, k2: v2}
+            if not _e1.accepted(d, S):
+                continue
+            for x in strings:
+                ev += 1
+                n, prob = check_case(d, S, x)
+                if n:
+                    nt += 1
+                outcomes["long-string-errors=%d" % n] = outcomes.get("long-string-errors=%d" % n, 0) + 1
+                if prob is not None and prob[0] in ("decomp", "crash", "unattributed"):
+                    viol.append({"signature": "C05|long-string|%s|%s" % (prob[0], _e1.kwsig(S)), "size": len(x),
+                                 "case": {"draft": d, "schema": S, "long_string": strings.index(x)},
+                                 "detail": {"kind": prob[0], "keyword": prob[1], "length": len(x)}})
+    return {"evaluations": ev, "nontrivial": nt, "violations": viol, "samples": [], "outcomes": outcomes,
+            "counters": {"long_string_cases": ev}}
+
+
 def run_unit(unit, ctx):
+    if unit[1] == "longstr":
+        return run_long_strings(unit, ctx)
     if unit[1] == "edited":
         return run_edited(unit, ctx)
     if unit[1] == "refs":
@@ -535,19 +592,40 @@ def run_unit(unit, ctx):
 
 
 def replay(case, ctx):
-    d, S, x = case["draft"], case["schema"], case["instance"]
+    d, S, x = case["draft"], case["schema"], case.get("instance")
+    if case.get("long_string") is not None and "long_string" in case:
+        strings = []
+        for n in (17, 255, 4096, 4097, 5000, 70000):
+            strings += ["a" * n, "a" * (n - 1) + "B", "B" + "a" * (n - 1), "\U0001F600" * n]
+        nn, prob = check_case(d, S, strings[case["long_string"]])
+        return {"reproduced": prob is not None, "problem": prob and prob[0]}
     if case.get("edited"):
         k1, k2, v2 = case["edited"]
         S2 = json.loads(json.dumps(S))
         v = _e1.CLS[d](S2)
         list(v.iter_errors(x))
+        bad = []
+
+        def cmp(what):
+            g = sorted((_e1.ident(e) for e in v.iter_errors(x)), key=repr)
+            w = sorted((_e1.ident(e) for e in _e1.CLS[d](json.loads(json.dumps(S2))).iter_errors(x)), key=repr)
+            if g != w:
+                bad.append(what)
         S2[k2] = v2
-        g1 = sorted((_e1.ident(e) for e in v.iter_errors(x)), key=repr)
-        w1 = sorted((_e1.ident(e) for e in _e1.CLS[d](json.loads(json.dumps(S2))).iter_errors(x)), key=repr)
+        cmp("added")
+        for tbl, extra in (("patternProperties", {"^zz": {"type": "null"}, "b": {"type": "null"}}),
+                           ("properties", {"b": {"type": "null"}, "ab": {"type": "null"}}), ("dependencies", {"b": ["zz"]})):
+            if isinstance(S2.get(tbl), dict):
+                before = json.loads(json.dumps(S2[tbl]))
+                S2[tbl].update(json.loads(json.dumps(extra)))
+                if _e1.accepted(d, json.loads(json.dumps(S2))):
+                    cmp("nested-" + tbl)
+                else:
+                    S2[tbl].clear()
+                    S2[tbl].update(before)
         del S2[k1]
-        g2 = sorted((_e1.ident(e) for e in v.iter_errors(x)), key=repr)
-        w2 = sorted((_e1.ident(e) for e in _e1.CLS[d](json.loads(json.dumps(S2))).iter_errors(x)), key=repr)
-        return {"reproduced": g1 != w1 or g2 != w2}
+        cmp("deleted")
+        return {"reproduced": bool(bad), "steps": bad}
     if case.get("defaulting"):
         return {"reproduced": defaulting_differs(d, S, x)}
     if case.get("shared"):
